@@ -20,9 +20,15 @@ Definition obs_spec_contains (s arg item ov : list N) : list N :=
   | Some sp => show_outcome (contains sp (parse_tri ov) (parse_tri arg) item)
   end.
 (* one query through any observation point: args = specifier, call argument, candidate, object setting, (how the setting was made),
-   via = "contains" | "in" (`item in spec`: no call argument), (kind of candidate object: str / Version / subclass) *)
+   via = "contains" | "in" (`item in spec` = SpecContains.in_op: no call argument), (kind of candidate object: str / Version / subclass).
+   The model has ONE representation of a candidate (its text) and ONE of the object setting (option bool): "how" (constructor keyword vs
+   attribute assignment) and "kind" (str / Version / Version subclass) are distinctions of the implementation only; the correspondence run
+   checks that the implementation's answer does not depend on them. *)
 Definition obs_spec_query (s arg item ov via : list N) : list N :=
-  obs_spec_contains s (if seqb via (asc "in") then [] else arg) item ov.
+  match Specifier s with
+  | None => asc "ES"
+  | Some sp => show_outcome (if seqb via (asc "in") then in_op sp (parse_tri ov) item else contains sp (parse_tri ov) (parse_tri arg) item)
+  end.
 Definition obs_spec_sem (s item : list N) : list N :=
   match Specifier s with
   | None => asc "ES"
